@@ -14,6 +14,11 @@
 int
 main(void)
 {
+	/* TASK_IDS=a,b,c: the ids of tasks A, B and C (default 10,20,30) */
+	unsigned long ids[3] = { 10, 20, 30 };
+	const char *e = getenv("TASK_IDS");
+	if (e != NULL && sscanf(e, "%lu,%lu,%lu", &ids[0], &ids[1], &ids[2]) != 3)
+		return 2;
 	if (freopen("/dev/null", "w", stderr) == NULL)
 		return 2;
 	char *line = NULL;
@@ -31,9 +36,9 @@ main(void)
 		}
 		if (task_type_create(&info, 1, "type one") != 0 ||
 				task_type_create(&info, 2, "type two") != 0 ||
-				task_create(&info, 1, 10, fa) != 0 ||
-				task_create(&info, 2, 20, fb) != 0 ||
-				task_create(&info, 1, 30, fc) != 0) {
+				task_create(&info, 1, (uint32_t) ids[0], fa) != 0 ||
+				task_create(&info, 2, (uint32_t) ids[1], fb) != 0 ||
+				task_create(&info, 1, (uint32_t) ids[2], fc) != 0) {
 			puts("SETUP-FAILED");
 			continue;
 		}
@@ -54,7 +59,7 @@ main(void)
 				st = p[3] - '0';
 				p += 4;
 			}
-			uint32_t id = tk == 'A' ? 10 : tk == 'B' ? 20 : 30;
+			uint32_t id = (uint32_t) (tk == 'A' ? ids[0] : tk == 'B' ? ids[1] : ids[2]);
 			struct task *task = task_find(info.tasks, id);
 			int ret;
 			switch (op) {
@@ -72,7 +77,7 @@ main(void)
 		/* report what the module says is running on each stack */
 		for (int i = 0; i < 3; i++) {
 			struct body *b = task_get_running(&stacks[i]);
-			printf(" | %d:%d", b ? (int) task_get_id(body_get_task(b)) : 0, b ? (int) body_get_id(b) : 0);
+			printf(" | %u:%u", b ? (unsigned) task_get_id(body_get_task(b)) : 0, b ? (unsigned) body_get_id(b) : 0);
 		}
 		printf("\n");
 	}
